@@ -30,15 +30,18 @@ type Proc struct {
 	Killed   bool
 	Exited   bool
 	ExitAt   time.Time
+	StartFailed bool
+	Step     int // scheduler step of the start (set by the harness through OnStart)
 	kill     chan struct{}
 	b        Behaviour
 }
 
 type World struct {
-	mu     sync.Mutex
-	Procs  []*Proc
-	Behave func(path string) Behaviour
-	Failed []string // starts that failed: path + error
+	mu      sync.Mutex
+	Procs   []*Proc
+	Behave  func(path string) Behaviour
+	Failed  []string // starts that failed: path + error
+	OnStart func(p *Proc) // called (with the world locked) for every start attempt, successful or not
 }
 
 var Cur *World
@@ -143,12 +146,17 @@ func (c *Cmd) Start() error {
 	if w.Behave != nil {
 		b = w.Behave(c.Path)
 	}
+	p := &Proc{ID: len(w.Procs), Path: c.Path, Args: append([]string(nil), c.Args...), Env: append([]string(nil), c.Env...), StartAt: time.Now(), kill: make(chan struct{}), b: b}
+	if w.OnStart != nil {
+		w.OnStart(p)
+	}
 	if b.StartErr != nil {
 		w.Failed = append(w.Failed, c.Path+": "+b.StartErr.Error())
+		p.StartFailed = true
+		w.Procs = append(w.Procs, p)
 		return &Error{Name: c.Path, Err: b.StartErr}
 	}
 	c.started = true
-	p := &Proc{ID: len(w.Procs), Path: c.Path, Args: append([]string(nil), c.Args...), Env: append([]string(nil), c.Env...), StartAt: time.Now(), kill: make(chan struct{}), b: b}
 	w.Procs = append(w.Procs, p)
 	c.Process = &Process{Pid: 1000 + p.ID, p: p, w: w}
 	return nil
